@@ -1,6 +1,7 @@
 ---------------------------- MODULE Limits_Judge ----------------------------
 (* TLC as judge for C08: three observation files written by `limits run`.                     *)
-(*  rlobs:  [runner, rec, name, inh, got, status, errlen, setup]   getrlimit seen by the probe *)
+(*  rlobs:  [runner, rec, name, inh, got, ign, callerign, status, errlen, setup]               *)
+(*                         getrlimit and ignored signals seen by the probe on entry            *)
 (*  vobs:   [runner, name, scen, end, prog, arg, cpu, fsize, tl_us, ml_kib, limited, cancelled, *)
 (*           status, exit, time_us, mem_kib, report, setup]        limit verdict runs          *)
 (*  cobs:   [n, volume, chunk, delay_us, written, werrno, wsig, wexit, blocked,                *)
@@ -27,6 +28,8 @@ JudgeRl(o) ==
   ELSE IF Len(o.got) # 16 THEN
        IF o.status = StRunnerError THEN V("viol", "settable-limits-not-set", -1)
        ELSE V("model", "no-report", -1)
+  ELSE IF ~StartDispositionsOK(ToSet(o.ign), ToSet(o.callerign))
+       THEN V("viol", "limit-signal-ignored-at-start", MinOf(IgnoredLimitSignals(ToSet(o.ign), ToSet(o.callerign))))
   ELSE IF WrongRes(o) # {} THEN V("viol", "limit-not-in-force", MinOf(WrongRes(o)))
   ELSE IF o.status # StNormal THEN V("viol", "wrong-status", -1)
   ELSE V("ok", "", -1)
@@ -47,8 +50,11 @@ VEnd(o) ==
       [] l.t = "burning" /\ o.arg = 0 /\ o.cpu > 0  -> SigEnd(SIGXCPU)   \* SIGXCPU or the hard limit's SIGKILL: both TLE
       [] OTHER                                      -> [k |-> "unknown", n |-> 0]
 
+IgnAtStart(o) == { o.report[i].v : i \in { j \in DOMAIN o.report : o.report[j].t = "ign" } }
 JudgeV(o) ==
   IF o.setup # "" THEN V("setup", "setup", -1)
+  ELSE IF HasTag(o, "start") /\ ~StartDispositionsOK(IgnAtStart(o), ToSet(o.callerign))
+       THEN V("viol", "limit-signal-ignored-at-start", MinOf(IgnoredLimitSignals(IgnAtStart(o), ToSet(o.callerign))))
   ELSE LET e == VEnd(o) IN
   IF o.status = StRunnerError THEN
        (IF o.errlen = 0 THEN V("viol", "runner-error-without-text", -1)
@@ -78,6 +84,10 @@ JudgeV(o) ==
        ELSE IF o.limited /\ wit /\ TagVal(o, "utime_us") > o.tl_us /\ o.status \notin {StTLE, StMLE} THEN V("viol", "time-bound-exceeded-not-reported", StTLE)
        ELSE IF o.status # exp THEN V("viol", "wrong-status", exp)
        ELSE IF exp = Classify(e).status /\ ExitPinned(exp) /\ o.exit # e.n THEN V("viol", "wrong-exit-value", exp)
+       \* implementation layer: where the program is not pid 1 the soft CPU limit's SIGXCPU ends it, well
+       \* before the hard limit
+       ELSE IF o.scen = "cpu-rlimit" /\ ~Pid1(o.runner) /\ 2 * o.time_us >= (o.cpu + o.cpuHard) * 1000000
+            THEN V("drift", "ended-at-the-hard-cpu-limit", exp)
        ELSE V("ok", "", exp)
 
 (* ------------------------------- collector ----------------------------- *)
